@@ -25,10 +25,16 @@ var streamPrefixes = []string{"tunnox-core/internal/stream.", "tunnox-core/inter
 type cReader struct {
 	c      *vkit.BufConn
 	closes counter
+	slowNS int64
 }
 
 func (r *cReader) Read(p []byte) (int, error) { return r.c.Read(p) }
-func (r *cReader) Close() error               { r.closes.hit(); return r.c.Close() }
+func (r *cReader) Close() error {
+	r.closes.hit()
+	for t := nowNS(); nowNS()-t < r.slowNS; { // a transport whose Close takes a moment
+	}
+	return r.c.Close()
+}
 
 // gWriter is the write half: Write call number blockAt (1-based) of the whole life of the
 // writer parks until the gate opens or the writer is closed (as a socket write would).
@@ -69,8 +75,9 @@ func genStream(t *rapid.T) Round {
 	r.Closers = rapid.SampledFrom([]int{2, 2, 2, 3, 3, 4, 5, 6, 8}).Draw(t, "closers")
 	r.Paths = drawPaths(t, streamPaths, 3)
 	r.P["readers"] = rapid.IntRange(0, 2).Draw(t, "readers")
-	r.P["writer"] = rapid.IntRange(0, 1).Draw(t, "writer")    // a WritePacket parked inside the transport before the race
-	r.P["blockAt"] = rapid.IntRange(1, 3).Draw(t, "blockAt")  // which transport write of the packet parks (type, size, body)
+	r.P["writer"] = rapid.IntRange(0, 1).Draw(t, "writer")   // a WritePacket parked inside the transport before the race
+	r.P["blockAt"] = rapid.IntRange(1, 3).Draw(t, "blockAt") // which transport write of the packet parks (type, size, body)
+	r.P["slowClose"] = rapid.IntRange(0, 1).Draw(t, "slowClose")
 	r.P["cut"] = rapid.IntRange(1, 7).Draw(t, "cut")          // feed-partial: bytes of the 9-byte packet delivered at the barrier
 	r.P["variant"] = rapid.IntRange(0, 1).Draw(t, "compress") // WritePacket with compression
 	return r
@@ -92,7 +99,7 @@ func runStream(r Round) *outcome {
 	feed, rd := vkit.NewBufConnPair("10.1.0.1:1", "10.1.0.2:2")
 	sink, wr := vkit.NewBufConnPair("10.1.0.3:3", "10.1.0.4:4")
 	defer func() { feed.Close(); sink.Close(); rd.Close(); wr.Close() }()
-	reader := &cReader{c: rd}
+	reader := &cReader{c: rd, slowNS: int64(r.p("slowClose")) * 20000}
 	writer := &gWriter{c: wr, gate: make(chan struct{}), closed: make(chan struct{})}
 	if r.p("writer") == 1 {
 		writer.blockAt = int32(r.p("blockAt"))
@@ -151,6 +158,11 @@ func runStream(r Round) *outcome {
 				sp.CloseWithResult()
 			} else {
 				sp.Close()
+			}
+			// Close returned => released, for every caller
+			if mine.get() != 1 || reader.closes.get() < 1 || writer.closes.get() < 1 || !rd.IsClosed() || !wr.IsClosed() {
+				rc.fail("C16/stream/close-returned-before-cleanup-finished",
+					fmt.Sprintf("a Close call (closer %d of %d) returned with cleanup handler run=%d, reader closed=%v, writer closed=%v", i, r.Closers, mine.get(), rd.IsClosed(), wr.IsClosed()))
 			}
 		})
 	}
